@@ -706,6 +706,15 @@ def path_facts(ctx):
         elif fr[0] == "logic":
             # right operand of && is evaluated only if the left is true; of || only if false
             out.append((fr[1]["l"], fr[2] == "And"))
+        elif fr[0] == "arm":
+            # `match cond { true => .., false => .. }` is an if
+            tv = _bool_arm_value(fr[1], fr[2])
+            if tv is not None:
+                out.append((fr[1]["scrutinee"], tv))
+        elif fr[0] == "after-arm" and len(fr[2]) == 1:
+            tv = _bool_arm_value(fr[1], fr[2][0])
+            if tv is not None:
+                out.append((fr[1]["scrutinee"], tv))
     norm = []
     for cond, truth in out:
         c = strip(cond)
@@ -730,6 +739,26 @@ def path_facts(ctx):
             else:
                 norm.append((e, t))
     return norm
+
+
+def _bool_arm_value(m, i):
+    """truth value of the (bool) scrutinee in arm i of a match over `true` / `false` / `_`, or None"""
+    def val(p):
+        if isinstance(p, dict) and p.get("k") == "Constant" and p.get("ty") == "bool" and p.get("value") in ("true", "false"):
+            return p["value"] == "true"
+        return None
+    arms = m["arms"]
+    if any(a.get("guard") is not None for a in arms[:i + 1]):
+        return None
+    v = val(arms[i]["pat"])
+    if v is not None:
+        return v
+    p = arms[i]["pat"]
+    if isinstance(p, dict) and p.get("k") in ("Wild", "Binding") and not p.get("sub") and (p.get("ty") == "bool" or strip(m["scrutinee"]).get("ty") == "bool"):
+        prev = [val(a["pat"]) for a in arms[:i]]
+        if prev and all(x is not None for x in prev) and len(set(prev)) == 1:
+            return not prev[0]
+    return None
 
 
 def some_bindings_on_path(ctx):
